@@ -3504,7 +3504,6 @@ orc_compiler_sse_register_rules (OrcTarget *target)
   orc_rule_register (rule_set, "convsuslw", sse_rule_convsuslw, NULL);
   orc_rule_register (rule_set, "mulslq", sse_rule_mulslq, NULL);
   orc_rule_register (rule_set, "mulhsl", sse_rule_mulhsl, NULL);
-  orc_rule_register (rule_set, "convsssql", sse_rule_convsssql_sse41, NULL);
   REG(cmpeqq);
 #endif
 
@@ -3513,6 +3512,14 @@ orc_compiler_sse_register_rules (OrcTarget *target)
       ORC_TARGET_SSE_SSE4_2);
 
   REG(cmpgtsq);
+
+#ifndef MMX
+  /* blendvpd (SSE 4.1) and pcmpgtq (SSE 4.2) */
+  rule_set = orc_rule_set_new (orc_opcode_set_get("sys"), target,
+      ORC_TARGET_SSE_SSE4_1 | ORC_TARGET_SSE_SSE4_2);
+
+  orc_rule_register (rule_set, "convsssql", sse_rule_convsssql_sse41, NULL);
+#endif
 
   /* SSE 4a -- no rules */
 }
